@@ -75,6 +75,11 @@ func (g *Gen) confLine() string {
 		if g.r.Intn(2) == 0 {
 			parts = append(parts, "grace=3600")
 		}
+		if g.r.Intn(4) == 0 {
+			// a manifest limit below the size of a referrers response with two or three entries: the limit is on what clients push,
+			// not on what the collector reads
+			parts = append(parts, "mlimit="+strconv.Itoa(450+g.r.Intn(300)))
+		}
 	case "rofs":
 		// collections through the memory overlay under either grace setting
 		if g.r.Intn(2) == 0 {
@@ -320,7 +325,7 @@ func (g *Gen) readManifest(repo string) {
 	}
 	line := fmt.Sprintf("%s %s %s accept=%s", op, repo, ref, strings.Join(acc, ","))
 	if len(acc) > 0 && g.r.Intn(4) == 0 {
-		line += " accform=" + g.pick([]string{"joined", "param", "bare", "bare"})
+		line += " accform=" + g.pick([]string{"joined", "param", "bare", "bare", "spaceparam", "spaceparam"})
 	}
 	if g.r.Intn(8) == 0 {
 		line += " range=" + g.pick([]string{"0-3", "2-", "-4", "5-9", "0-100000", "100000-100001"})
@@ -516,6 +521,11 @@ func (g *Gen) uploadStep(offs map[int]int, recv map[int]string) {
 		case 1: // mount
 			src := g.pick([]string{"r1", "r2", "r3", "../x", "r1/../r2", "blobs"})
 			c := g.pick([]string{"aa", "b", "aab", "zz", "~"}) // ~ : the empty blob (the digest every fresh digester starts with)
+			if c == "~" && g.profile == "rofs" {
+				// under the memory overlay BlobCreate's "exists" looks at the overlay only; the model does not tell overlay from
+				// directory content (DESIGN I.6), so a blob that an earlier step may have put into the directory is not mounted here
+				c = "zz"
+			}
 			line := "UPOST " + repo + " mount=" + algo() + ":" + c + " from=" + src
 			if g.r.Intn(4) == 0 {
 				line += " digest=" + algo() + ":" + c + " body=" + c
@@ -1228,7 +1238,7 @@ func (g *Gen) twinFirst(repo string) {
 			mt = "ocim"
 		}
 		for _, r := range ci.refs {
-			if strings.HasPrefix(r, "sha256:") && r != "sha256:" {
+			if strings.HasPrefix(r, "sha256:") && r != "sha256:" && !strings.HasPrefix(r, "sha256:?") {
 				g.emit("UPOST " + repo + " digest=" + r + " body=" + strings.TrimPrefix(r, "sha256:"))
 			}
 		}
